@@ -155,6 +155,7 @@ class ForecasterOnePhase:
             cum_production,
             p0,
             bounds=bounds,
+            gtol=None,  # the gradient test is absolute, so it depends on the units of production
         )
         self.time_on_production = time_on_production
         self.cum_production = cum_production
